@@ -278,12 +278,51 @@ func runProp(prop string) int {
 	}
 	ruleHits := map[string]int{}
 	definesUsed := map[string]bool{}
+	// opt instances=name:lo..hi : the function is verified once per value of an integer
+	// parameter (a complete case split of the stated range; every case is its own set of
+	// obligations, all must discharge)
+	type job struct {
+		fn   *ssa.Function
+		con  *Contract
+		inst string
+	}
+	var jobs []job
 	for _, fn := range order {
 		con := todo[fn]
+		spec := con.Opts["instances"]
+		if spec == "" {
+			jobs = append(jobs, job{fn, con, ""})
+			continue
+		}
+		var name string
+		var lo, hi int
+		if i := strings.Index(spec, ":"); i > 0 {
+			name = spec[:i]
+			fmt.Sscanf(spec[i+1:], "%d..%d", &lo, &hi)
+		}
+		if *flagTier != "thorough" {
+			if q := con.Opts["instances_quick"]; q != "" {
+				fmt.Sscanf(q, "%d..%d", &lo, &hi)
+			}
+		}
+		for k := lo; k <= hi; k++ {
+			cc := *con
+			src := fmt.Sprintf("%s == %d", name, k)
+			e, err := parseExpr(src)
+			if err != nil {
+				continue
+			}
+			cc.Requires = append(append([]*Clause{}, con.Requires...), &Clause{Label: "instance", E: e, Src: src})
+			jobs = append(jobs, job{fn, &cc, fmt.Sprintf("[%s=%d]", name, k)})
+		}
+	}
+	for _, jb := range jobs {
+		fn, con := jb.fn, jb.con
 		if *flagFunc != "" && !strings.Contains(fn.String(), *flagFunc) {
 			continue
 		}
 		c := P.newCtx(fn, con)
+		c.inst = jb.inst
 		c.ruleHits = ruleHits
 		for _, r := range rules {
 			if r.callerMatches(fn, rulePkg[r]) {
@@ -653,7 +692,17 @@ func discharge(obls []*Obl, timeout int, all bool) {
 		go func(o *Obl) {
 			defer wg.Done()
 			defer func() { <-sem }()
-			o.Res = solve(o.Query, timeout, all)
+			if o.Prefer != "" && !all {
+				// contract option solver=<name>: try that back end alone first
+				for _, sp := range solvers {
+					if strings.HasPrefix(sp.name, o.Prefer) {
+						o.Res = raceSolvers([]solverSpec{sp}, o.Query, timeout, false)
+					}
+				}
+			}
+			if o.Res.Result != "unsat" && o.Res.Result != "sat" {
+				o.Res = solve(o.Query, timeout, all)
+			}
 			switch o.Res.Result {
 			case "unsat":
 				o.Status = "discharged"
